@@ -109,6 +109,10 @@ class Enumerator(object):
             return self.needs_paths(x['e'])
         return self.helper_target(x) is not None or self.is_foreach(x)
 
+    def log_only_ids(self):
+        key = self.stack[-1] if self.stack else getattr(self, 'root_fn', None)
+        return self.ev.log_only(key) if key else set()
+
     def is_foreach(self, node):
         return node.get('k') in ('Call', 'MethodCall') and S.norm_path(H.callee_decl(node) or '') in ('std::iter::Iterator::try_for_each', 'std::iter::Iterator::for_each') \
             and len(H.call_args(node)) == 2 and S.closure_node(H.call_args(node)[1]) is not None and len(S.closure_node(H.call_args(node)[1])['params']) == 1
@@ -527,6 +531,9 @@ class Enumerator(object):
                     nxt.append(p)
                     continue
                 sk = s['k']
+                if sk == 'Let' and s.get('pat', {}).get('k') == 'Bind' and s['pat']['id'] in self.log_only_ids():
+                    nxt.append(p)
+                    continue  # computed for a log line only
                 if sk == 'Let':
                     if s.get('init') is None:
                         self.ev.bind_pat(s['pat'], None, p.env)
@@ -635,6 +642,7 @@ def table(ctx, fnpath, param_names=None):
     """All paths of a function as rows."""
     fn = ctx.fn(fnpath)
     en = Enumerator(ctx)
+    en.root_fn = fnpath
     en.ev.mutated = dict(en.ev.mutated_locals(fnpath, fn))
     en.ev.tracked = en.ev.trackable_locals(fn, True)
     for lid in en.ev.tracked:
